@@ -39,14 +39,14 @@ def main():
         meta["ran"].append("go build ./... && go test -vet=off -count=1 ./...  (with change, without demo): rc=%d" % rc)
         shutil.copy(os.path.join(out, "zz_demo_test.go"), os.path.join(scratch, demo_rel))
         pkgdir = os.path.dirname(demo_rel) or "."
-        rc, o = sh("go test -vet=off -count=1 -run 'TestDemo' ./%s" % pkgdir, cwd=scratch)
+        rc, o = sh("go test -vet=off -count=1 -run 'Demo' ./%s" % pkgdir, cwd=scratch)
         meta["demo_fails_with_change"] = rc != 0
-        meta["ran"].append("go test -run TestDemo ./%s (with change): rc=%d" % (pkgdir, rc))
+        meta["ran"].append("go test -run Demo ./%s (with change): rc=%d" % (pkgdir, rc))
         rc, o = sh("git apply -R %s/patch.diff" % out, cwd=scratch)
         assert rc == 0, o
-        rc, o = sh("go test -vet=off -count=1 -run 'TestDemo' ./%s" % pkgdir, cwd=scratch)
+        rc, o = sh("go test -vet=off -count=1 -run 'Demo' ./%s" % pkgdir, cwd=scratch)
         meta["demo_passes_without_change"] = rc == 0
-        meta["ran"].append("go test -run TestDemo ./%s (without change): rc=%d" % (pkgdir, rc))
+        meta["ran"].append("go test -run Demo ./%s (without change): rc=%d" % (pkgdir, rc))
     finally:
         sh("git -C /repo worktree remove --force %s" % scratch)
     ok = meta.get("suite_passes_with_change") and meta.get("demo_fails_with_change") and meta.get("demo_passes_without_change")
@@ -57,21 +57,36 @@ def main():
     shutil.copy(os.path.join(out, "zz_demo_test.go"), os.path.join(dest, "zz_demo_test.go.txt"))
     if os.path.exists(os.path.join(out, "README.md")):
         shutil.copy(os.path.join(out, "README.md"), os.path.join(dest, "AGENT_README.md"))
-    # run checks against /repo with the patch applied
+    # run checks with the patch applied: against /repo itself, or (VERIF_SEED_SCRATCH=1) against a scratch
+    # worktree of /repo's HEAD so that /repo stays untouched while other runs use it
     results = {}
-    rc, o = sh("git -C /repo status --porcelain")
-    assert o.strip() == "", "/repo not clean: " + o
-    rc, o = sh("git -C /repo apply %s/patch.diff" % dest)
-    assert rc == 0, o
+    scratch_eval = None
+    if os.environ.get("VERIF_SEED_SCRATCH") == "1":
+        scratch_eval = "/tmp/wt/eval_%s" % sid
+        sh("git -C /repo worktree remove --force %s" % scratch_eval)
+        rc, o = sh("git -C /repo worktree add -q --detach %s HEAD" % scratch_eval)
+        assert rc == 0, o
+        rc, o = sh("git -C %s apply %s/patch.diff" % (scratch_eval, dest))
+        assert rc == 0, o
+        repo_env = "VERIF_REPO=%s " % scratch_eval
+    else:
+        rc, o = sh("git -C /repo status --porcelain")
+        assert o.strip() == "", "/repo not clean: " + o
+        rc, o = sh("git -C /repo apply %s/patch.diff" % dest)
+        assert rc == 0, o
+        repo_env = ""
     try:
         for c in checks:
             t0 = time.time()
-            rc, o = sh("cd /verif && ./check %s quick" % c, timeout=3600)
+            rc, o = sh("cd /verif && %s./check %s quick" % (repo_env, c), timeout=3600)
             lines = [l for l in o.splitlines() if l.startswith(("VIOLATION", "KNOWN-FINDING", "ENGINE-ERROR", "OK "))]
             results[c] = {"exit": rc, "lines": lines[:6], "wall_s": round(time.time() - t0)}
             print(c, rc, lines[:3])
     finally:
-        sh("git -C /repo checkout -- .")
+        if scratch_eval:
+            sh("git -C /repo worktree remove --force %s" % scratch_eval)
+        else:
+            sh("git -C /repo checkout -- .")
     meta["checks_quick"] = results
     meta["detected_by"] = [c for c, r in results.items() if r["exit"] == 1]
     json.dump(meta, open(os.path.join(dest, "meta.json"), "w"), indent=1)
